@@ -306,11 +306,9 @@ func childMigSize(b run.Batch, r *ev.Result) {
 		return m, len(m.Bytes()) == n
 	}
 	sync := func() (refenc.SyncReply, []byte, error) {
-		var req [4]byte
-		binary.LittleEndian.PutUint32(req[:], dev.ID)
-		raw, err := a.SyncRaw(req[:])
-		if err != nil {
-			return refenc.SyncReply{}, nil, fmt.Errorf("harness: %v", err)
+		raw, cut, err := syncRaw(a.Srv, dev.ID)
+		if cut {
+			return refenc.SyncReply{}, nil, fmt.Errorf("harness: sync reply empty or cut short in 4 attempts (%d bytes, %v): connection deadline on an overloaded machine", len(raw), err)
 		}
 		rep, refused, err := refenc.ParseSyncReply(raw)
 		if err == nil && refused {
@@ -324,11 +322,15 @@ func childMigSize(b run.Batch, r *ev.Result) {
 	post := func(m refenc.Migration) (int, []byte, bool) {
 		run.Op("equipment-migrate order of %d bytes, %d servers", len(m.Bytes()), len(m.Servers))
 		st, body, err := a.PostMigration(m)
-		for try := 0; err != nil && try < 3; try++ {
-			st, body, err = a.PostMigration(m) // identical order: idempotent
+		// A transport error, or a 400 'Invalid request body' (the server's
+		// 2.5 s read timeout cut the ~300 KB body short on an overloaded
+		// machine), is retried: the identical order is idempotent.
+		for try := 0; (err != nil || st == 400) && try < 4; try++ {
+			r.Count("migsize.post_retried", 1)
+			st, body, err = a.PostMigration(m)
 		}
-		if err != nil {
-			r.Inconc("POST /equipment-migrate: " + err.Error())
+		if err != nil || st == 400 {
+			r.Inconc(fmt.Sprintf("POST /equipment-migrate did not get through in 5 attempts (status %d, %v): request read timeout on an overloaded machine", st, err))
 			return 0, nil, false
 		}
 		return st, body, true
